@@ -587,6 +587,30 @@ theorem a85_ahx_translated (data : Bytes) :
 example : ahxNeedsPad 3 = true ∧ ahxNeedsPad 4 = false := by decide
 example : asciihexdecode [52, 32, 49, 55, 62, 55] = .ok [0x41, 0x70] := by decide
 
+/-- pdftypes.py, `PDFStream._decode`: the predictor dispatch of the model is the translated
+`if pred == 1 / elif pred == 2 / elif pred >= 10 / else` chain (0 = none, 1 = TIFF, 2 = PNG,
+3 = `PDFNotImplementedError`) with the translated defaults of Colors / Columns / BitsPerComponent. -/
+theorem predictor_translated (p : Parms) (pred : Nat) (data : Bytes) (hp : p.predictor = some pred) :
+    applyPredictor (some p) data =
+      (match predKind pred with
+       | 0 => .ok data
+       | 1 => apply_tiff_predictor (p.colors.getD PRED_TIFF_DEFAULTS.1) (p.columns.getD PRED_TIFF_DEFAULTS.2.1)
+                (p.bpc.getD PRED_TIFF_DEFAULTS.2.2) data
+       | 2 => apply_png_predictor (p.colors.getD PRED_PNG_DEFAULTS.1) (p.columns.getD PRED_PNG_DEFAULTS.2.1)
+                (p.bpc.getD PRED_PNG_DEFAULTS.2.2) data
+       | _ => .error .pdfNotImplemented) := by
+  simp only [applyPredictor, hp, predKind, PRED_TIFF_DEFAULTS, PRED_PNG_DEFAULTS]
+  by_cases h1 : pred = 1
+  · simp [h1]
+  · by_cases h2 : pred = 2
+    · simp [h2]
+    · by_cases h3 : pred ≥ 10
+      · simp [h1, h2, h3]
+      · simp [h1, h2, h3]
+
+example : predKind 1 = 0 ∧ predKind 2 = 1 ∧ predKind 10 = 2 ∧ predKind 15 = 2 ∧ predKind 3 = 3 ∧ predKind 0 = 3 := by decide
+example : applyPredictor (some ⟨some 12, none, some 2, none⟩) [2, 1, 2, 2, 1, 1] = .ok [1, 2, 2, 3] := by decide
+
 /-! ## Round 6: the whole `stream` branch — Length clamp, `endstream` scan, fallback mode
 
 `streamRead` (tied to `PDFParser.do_keyword` on every run, fallback and non-fallback, any `Length`)
